@@ -31,7 +31,7 @@ func init() {
 		sf("Title", str), sf("Count", num), sf("Kids", reflect.SliceOf(tMid)), sf("PKids", reflect.SliceOf(reflect.PtrTo(tMid))),
 		sf("Leaf", reflect.PtrTo(tLeaf)), sf("NilLeaf", reflect.PtrTo(tLeaf)), sf("Nums", reflect.SliceOf(num)),
 		sf("Lists", reflect.SliceOf(reflect.SliceOf(num))), sf("Strs", reflect.SliceOf(str)), sf("Inner", tMid),
-		sf("Éclairs", num), sf("PLeafs", reflect.SliceOf(reflect.PtrTo(tLeaf))), sf("Empty", reflect.SliceOf(tMid)),
+		sf("Éclairs", num), sf("PLeafs", reflect.SliceOf(reflect.PtrTo(tLeaf))), sf("Empty", reflect.SliceOf(tMid)), sf("Ǆep", str),
 	})
 	// typedmodel: the Lean typed model (Jmes/Typed.lean: evalT, view) against the
 	// implementation on the same typed document and expression.
@@ -258,6 +258,7 @@ func typedCase(seed uint64, idx int) (g *gen, doc interface{}, generic interface
 	}
 	root.Field(11).Set(pl)
 	root.Field(12).Set(reflect.MakeSlice(reflect.SliceOf(tMid), 0, 0))
+	root.Field(13).SetString("digraph")
 	if g.r.chance(50) {
 		p := reflect.New(tRoot)
 		p.Elem().Set(root)
@@ -288,6 +289,12 @@ func typedCase(seed uint64, idx int) (g *gen, doc interface{}, generic interface
 			"Nums[9223372036854775807]", "Nums[-9223372036854775808]", "Kids[-9223372036854775808].Label",
 			"\"\"", "Inner.\"\"", "Kids[*].\"\"", "Leaf.\"\"", "\"\" || Title", "{a: \"\", b: Title}", "\" \"", "Inner.\"\\u0000\"", "\"title \"", "Kids[0].\"\".Name"})
 		exprs = append(exprs, typedExpr{typed: e, generic: e, nav: true})
+	}
+	// a field whose first letter has different upper-case and title-case forms (ǆ / ǅ / Ǆ): the library upper-cases
+	if g.r.chance(30) {
+		lowerOrTitle := g.r.pick([]string{"ǆ", "ǅ", "Ǆ"})
+		form := g.r.pick([]string{"%s", "[%s, Title]", "%s || Title", "{a: %s}", "Kids[*].[%s]", "[%s][0]"})
+		exprs = append(exprs, typedExpr{typed: strings.Replace(form, "%s", "\""+lowerOrTitle+"ep\"", -1), generic: strings.Replace(form, "%s", "\"Ǆep\"", -1), nav: true})
 	}
 	// six members of the product (context × typed path) per case, walking the whole product as idx grows
 	for i := 0; i < 6; i++ {
